@@ -2,6 +2,8 @@ import Verif.Proofs.C09HtmlPieces
 import Verif.Proofs.C09HtmlModelTag
 import Verif.Spec.C09HtmlIntended
 import Verif.Model.C09HtmlWalk
+import Verif.Proofs.C09HtmlModelComment
+import Verif.Proofs.C09HtmlModelRaw
 /-!
 # C09 / HTML — the flagship: the output of the model re-tokenises to the intended token stream
 
@@ -247,14 +249,84 @@ theorem run_cons_ok (o : Opts) (ext : Ext) (sub : Sub) (st : St) (t : HTok) (res
     · cases h
     · next o2 h2 => exact ⟨st', o1, o2, hr, h2, (ok_inj h).symm⟩
 
+/-- a comment token of the lexer's shape that does not close abruptly: whatever the model writes for it is one data piece -/
+theorem dataPiece_comment_shape (o : Opts) (ext : Ext) (sub : Sub) (st st' : St) (d tx : List Char) (rest : List HTok)
+    (o1 : List Char) (hstep : Verif.Model.Html.step o ext sub st (.comment d tx) rest = .ok (st', o1))
+    (h : (!st.dropEnd && commentShape d tx && !abruptStart tx) = true) : DataPieceOK o1 .data := by
+  simp only [Bool.and_eq_true, Bool.not_eq_true'] at h
+  obtain ⟨⟨hde, hsh⟩, hab⟩ := h
+  have hco : commentOut o ext d tx = .ok o1 := by
+    unfold Verif.Model.Html.step at hstep
+    simp only [hde, Bool.false_eq_true, if_false, bind, Except.bind] at hstep
+    split at hstep
+    · cases hstep
+    · next out hout => rw [hout]; exact congrArg Except.ok (Prod.mk.inj (ok_inj hstep)).2
+  by_cases hne : o1 = []
+  · rw [hne]; exact dataPiece_nil
+  · simp only [commentShape, Bool.and_eq_true, Bool.or_eq_true, beq_iff_eq, Bool.not_eq_true'] at hsh
+    obtain ⟨hd, hcl⟩ := hsh
+    have key : ∃ cl, Closer cl ∧ d = Verif.Proofs.C09HtmlComment.opener ++ tx ++ cl := by
+      rcases hd with e | e
+      · exact ⟨_, .normal, e⟩
+      · exact ⟨_, .bang, e⟩
+    obtain ⟨cl, hcl', hd'⟩ := key
+    obtain ⟨body, hb⟩ := html_comment_closed_uniform o ext d tx o1 cl hcl' hd' hcl hco hne hab
+    exact dataPiece_of_reads o1 [.comment body] .data (fun m hm => by
+      have := hb m [] hm.1.1 hm.1.2.1
+      simp only [List.append_nil, runO_nil] at this
+      exact ⟨this.1, by rw [this.2]; exact hm⟩)
+
+/-- the content written into a raw-text element satisfies `rawContentOK` under the guard of `classify` -/
+theorem rawContent_of_guard (o : Opts) (ext : Ext) (sub : Sub) (st st' : St) (tag d : List Char) (tm : Bool)
+    (rest : List HTok) (o1 : List Char)
+    (hstep : Verif.Model.Html.step o ext sub st (.text d tm) rest = .ok (st', o1)) (hg : goodRawTag tag = true)
+    (h : (scriptGuard tag o1 &&
+      ((st.rawTag == tag && !tm && !st.dropEnd && Verif.Model.Html.rawTextEndsAtEnd tag d) || !hasEndTag tag o1)) = true) :
+    rawContentOK tag o1 = true := by
+  simp only [Bool.and_eq_true, Bool.or_eq_true, Bool.not_eq_true', beq_iff_eq] at h
+  obtain ⟨hsg, hrest⟩ := h
+  have hsg' : scriptGuard tag o1 = true := hsg
+  unfold rawContentOK
+  simp only [Bool.and_eq_true, Bool.not_eq_true']
+  refine ⟨?_, by simpa [scriptGuard] using hsg'⟩
+  rcases hrest with ⟨⟨⟨hrt, htm⟩, hde⟩, hrl⟩ | hne
+  · subst hrt; subst htm
+    have hscript : st.rawTag = s "script" → hasInfix commentOpen o1 = false := by
+      intro e
+      simp only [scriptGuard, Bool.or_eq_true, Bool.not_eq_true', beq_eq_false_iff_ne, ne_eq] at hsg'
+      rcases hsg' with hn | hn
+      · exact absurd (by rw [e]; rfl) hn
+      · exact hn
+    have hne0 : st.rawTag ≠ [] := by
+      intro e; rw [e] at hg; exact absurd hg (by decide)
+    -- what the text branch writes in a raw-text element
+    have hcases : o1 = [] ∨ Verif.Model.Html.rawTextEndsAtEnd st.rawTag o1 = true := by
+      by_cases hdt : st.dropText = true
+      · left
+        unfold Verif.Model.Html.step at hstep
+        simp only [hde, Bool.false_eq_true, if_false, hdt, Bool.not_false, Bool.and_self, if_true] at hstep
+        exact (Prod.mk.inj (ok_inj hstep)).2.symm
+      · right
+        have hmode : Verif.Proofs.HtmlWs.textMode st false = 1 := by
+          unfold Verif.Proofs.HtmlWs.textMode
+          simp [hdt, hne0]
+        obtain ⟨st2, hs2⟩ := step_raw_out o ext sub st d false rest hde hmode
+        rw [hs2] at hstep
+        have : o1 = rawOut sub st d := (Prod.mk.inj (ok_inj hstep)).2.symm
+        rw [this]; exact rawOut_relex sub st d hrl
+    rcases hcases with e | e
+    · rw [e]; rfl
+    · exact Verif.Proofs.C09HtmlRelex.relex_noEndTag st.rawTag o1 hg hscript e
+  · exact hne
+
 /-- one step: the pieces it completes are read, from every machine state of the current phase, as what they are on their
     own, and lead to a machine state of the next phase -/
 theorem classify_sound (o : Opts) (ext : Ext) (sub : Sub) (st st' : St) (ph : Phase) (t : HTok) (rest : List HTok)
     (o1 : List Char) (hstep : Verif.Model.Html.step o ext sub st t rest = .ok (st', o1))
-    (hg : (classify o ext ph t o1).1 = true) :
-    pendC ph ++ o1 = (((classify o ext ph t o1).2.2).map Piece.bytes).flatten ++ pendC (classify o ext ph t o1).2.1 ∧
-    ∀ m, PhaseM ph m → ∃ m', PhaseM (classify o ext ph t o1).2.1 m' ∧
-      Reads ((((classify o ext ph t o1).2.2).map Piece.bytes).flatten) (intended (classify o ext ph t o1).2.2) m m' := by
+    (hg : (classify o ext st ph t o1).1 = true) :
+    pendC ph ++ o1 = (((classify o ext st ph t o1).2.2).map Piece.bytes).flatten ++ pendC (classify o ext st ph t o1).2.1 ∧
+    ∀ m, PhaseM ph m → ∃ m', PhaseM (classify o ext st ph t o1).2.1 m' ∧
+      Reads ((((classify o ext st ph t o1).2.2).map Piece.bytes).flatten) (intended (classify o ext st ph t o1).2.2) m m' := by
   -- a data piece in the data phase
   have dataCase : ∀ (next : Phase), DataPieceOK o1 next →
       (pendC .data ++ o1 = (([Piece.data o1]).map Piece.bytes).flatten ++ pendC next ∨ True) →
@@ -273,7 +345,11 @@ theorem classify_sound (o : Opts) (ext : Ext) (sub : Sub) (st st' : St) (ph : Ph
       exact ⟨by simp [pendC, Piece.bytes], dataCase .data (dataPiece_text o1 hg) (Or.inr trivial)⟩
     | comment d tx =>
       simp only [classify] at hg ⊢
-      exact ⟨by simp [pendC, Piece.bytes], dataCase .data (dataPiece_comment o1 hg) (Or.inr trivial)⟩
+      refine ⟨by simp [pendC, Piece.bytes], dataCase .data ?_ (Or.inr trivial)⟩
+      simp only [Bool.or_eq_true] at hg
+      rcases hg with hsh | hgc
+      · exact dataPiece_comment_shape o ext sub st st' d tx rest o1 hstep hsh
+      · exact dataPiece_comment o1 hgc
     | doctype =>
       simp only [classify, beq_iff_eq] at hg ⊢
       exact ⟨by simp [pendC, Piece.bytes], dataCase .data (by rw [hg]; exact dataPiece_doctype) (Or.inr trivial)⟩
@@ -306,8 +382,9 @@ theorem classify_sound (o : Opts) (ext : Ext) (sub : Sub) (st st' : St) (ph : Ph
     cases t with
     | text d tm =>
       simp only [classify] at hg ⊢
-      refine ⟨by simp [pendC], fun m hm => ⟨m, ⟨hm, hg⟩, ?_⟩⟩
-      simpa [intended] using Reads.nil m
+      refine ⟨by simp [pendC], fun m hm => ⟨m, ⟨hm, ?_⟩, ?_⟩⟩
+      · exact rawContent_of_guard o ext sub st st' tag d tm rest o1 hstep hm.2.2.2.1 hg
+      · simpa [intended] using Reads.nil m
     | endTag name d =>
       simp only [classify, beq_iff_eq] at hg ⊢
       refine ⟨by simp [pendC, Piece.bytes], fun m hm => ?_⟩
@@ -347,8 +424,8 @@ theorem classify_sound (o : Opts) (ext : Ext) (sub : Sub) (st st' : St) (ph : Ph
 theorem walk_cons_ok (o : Opts) (ext : Ext) (sub : Sub) (st st' : St) (ph : Phase) (t : HTok) (rest : List HTok)
     (o1 : List Char) (ps : List Piece) (hstep : Verif.Model.Html.step o ext sub st t rest = .ok (st', o1))
     (h : walk o ext sub st ph (t :: rest) = .ok (true, ps)) :
-    (classify o ext ph t o1).1 = true ∧ ∃ ps', walk o ext sub st' (classify o ext ph t o1).2.1 rest = .ok (true, ps') ∧
-      ps = (classify o ext ph t o1).2.2 ++ ps' := by
+    (classify o ext st ph t o1).1 = true ∧ ∃ ps', walk o ext sub st' (classify o ext st ph t o1).2.1 rest = .ok (true, ps') ∧
+      ps = (classify o ext st ph t o1).2.2 ++ ps' := by
   simp only [walk, hstep] at h
   split at h
   · cases h
@@ -440,13 +517,13 @@ theorem html_output_retokenises_counterexample : ¬ html_output_retokenises_full
   revert this
   decide
 
-/-- **why the guard of the flagship is on the OUTPUT text** (K-C09-HTML-10): html.go's reference decoding does not preserve
-    `textSafe`.  The text `<&#98;>` (a `<` that opens nothing, a reference, `>`) is written as `<b>`: the guard `textSafe`
-    holds for the token's data and fails for the bytes written, and the output is read as a start tag. -/
-theorem html_text_safe_not_preserved :
-    textSafe "<&#98;>x".toList = true ∧ textCollapsed "<&#98;>x".toList = "<b>x".toList ∧ textSafe "<b>x".toList = false ∧
+/-- regression for K-C09-HTML-10 (fixed by 6635adc): the text `<&#98;>x` — a `<` that opens nothing, a reference, `>` — is
+    written unchanged and read back as the same characters; before the fix it was written as `<b>x`, a start tag.  The general
+    statement is `html_text_safe_preserved` (`Proofs/C09HtmlTextLt.lean`). -/
+theorem html_lt_amp_kept :
+    htmlMinify {} [] none [.text "<&#98;>x".toList false] = .ok "<&#98;>x".toList ∧
     tokens false "<&#98;>x".toList = chs true "<&#98;>x".toList ∧
-    tokens false "<b>x".toList = [.startTag "b".toList [] false, .char 'x' true] := by
+    (match walk {} [] none {} .data [.text "<&#98;>x".toList false] with | .ok (g, _) => g | .error _ => false) = true := by
   decide +kernel
 
 /-- the statement over the lexer grammar: every token stream of the lexer's shape, all options, no sub-minifier -/
@@ -456,8 +533,7 @@ def html_output_retokenises_lexshape_full : Prop :=
 
 /-- **html_output_retokenises_lexshape_counterexample**: the statement is FALSE over the lexer grammar (K-C09-HTML-4):
     `a<`, a comment that is removed, `b>c` — all three tokens have the lexer's shape.  What is true is the guarded
-    statement `html_output_retokenises_partial`.  (K-C09-HTML-10 is a defect of ONE piece — the text `<&#98;>x` is written
-    as `<b>x` — not of the composition: `html_text_safe_not_preserved`.) -/
+    statement `html_output_retokenises_partial`. -/
 theorem html_output_retokenises_lexshape_counterexample : ¬ html_output_retokenises_lexshape_full := by
   intro h
   have h0 : lexShape [.text "a<".toList false, .comment "<!-- -->".toList " ".toList, .text "b>c".toList false] = true := by
